@@ -27,6 +27,8 @@ type c10Case struct {
 	Origin  string        `json:"origin,omitempty"` // well-formed | injected:<class> | mutated (for the evidence only)
 	Roots   int           `json:"roots,omitempty"`
 	Heading bool          `json:"heading,omitempty"`
+	CbFail  int           `json:"cbFail,omitempty"` // walk: k>0 = the (k-1)-th callback (in call order) returns an error
+	CbErr   int           `json:"cbErr,omitempty"`  // which error value it returns (ops.CallbackErr)
 }
 
 var c10Ops = []string{"text", "json", "yaml", "dryrun", "walk", "mkdir", "verify"}
@@ -46,6 +48,10 @@ func c10Make(c c10Case, massive bool) ops.Case {
 		cs.Opts.Exts = c.Exts
 	case "walk":
 		cs.Op = "walk"
+		if c.CbFail > 0 {
+			cs.Faults.CallbackFailAt = c.CbFail - 1
+			cs.Faults.CbErrKind = c.CbErr
+		}
 	case "mkdir":
 		cs.Op = "mkdir"
 		cs.Opts.Exts = c.Exts
@@ -102,6 +108,16 @@ func c10Check(c c10Case) string {
 			coll("C10", "random").excluded("massive-mkdir-not-atomic")
 		} else if a != b {
 			return fmt.Sprintf("%smkdir leaves different filesystems:\n--- simple\n%s--- massive\n%s", head, a, b)
+		}
+	}
+	if c.Op == "walk" && c.CbFail > 0 && sres.Err.IsCallback && !mres.Err.IsCallback {
+		// the document itself may be malformed further on (then either error is a possible first error under some order
+		// of the roots); when it is well-formed the callback's error is the only one there is
+		plain := c
+		plain.CbFail = 0
+		pc := c10Make(plain, false)
+		if pres := ops.DefaultEnv.Run(&pc); pres.Infra == "" && pres.Err.Nil {
+			return fmt.Sprintf("%sthe callback failed at its call %d: simple mode returns the callback's error unchanged, massive mode returned %q", head, c.CbFail-1, errOrNil(mres))
 		}
 	}
 	if !sres.Err.Nil {
@@ -438,8 +454,15 @@ func c10Gen() *rapid.Generator[c10Case] {
 		switch op {
 		case "text", "walk":
 			c.Branch = genBranch().Draw(t, "branch")
+			if op == "walk" && rapid.IntRange(0, 3).Draw(t, "cbFails") == 0 {
+				c.CbFail = 1 + rapid.IntRange(0, f.Count()).Draw(t, "cbFailAt")
+				c.CbErr = rapid.IntRange(0, 7).Draw(t, "cbErr")
+			}
 		case "dryrun", "mkdir":
 			c.Exts = genExts(f.Names()).Draw(t, "exts")
+			if op == "dryrun" {
+				c.Branch = genBranch().Draw(t, "branch")
+			}
 		case "verify":
 			c.Strict = rapid.Bool().Draw(t, "strict")
 			drop := map[int]bool{}
@@ -493,6 +516,9 @@ func c10Record(col *collector, c c10Case, mres *ops.Result) {
 	if c.Heading {
 		cl = append(cl, "heading-roots")
 	}
+	if c.CbFail > 0 {
+		cl = append(cl, "callback-fails")
+	}
 	if bytes.HasPrefix(c.Doc, []byte("\n")) || bytes.HasPrefix(c.Doc, []byte(" \n")) || bytes.HasPrefix(c.Doc, []byte("\r\n")) {
 		cl = append(cl, "leading-blank-line")
 	}
@@ -501,7 +527,7 @@ func c10Record(col *collector, c c10Case, mres *ops.Result) {
 		cl = append(cl, "hook:"+p)
 	}
 	nontrivial := c.Roots >= 3 || c.Origin != "well-formed"
-	col.eval(nontrivial, hash64(string(c.Doc), fmt.Sprint(c.Op, c.Branch, c.Exts, c.Strict, c.Pre, c.Sched)), cl...)
+	col.eval(nontrivial, hash64(string(c.Doc), fmt.Sprint(c.Op, c.Branch, c.Exts, c.Strict, c.Pre, c.Sched, c.CbFail, c.CbErr)), cl...)
 	col.sample(func() any {
 		return map[string]any{"doc": truncate(string(c.Doc), 300), "op": c.Op, "origin": c.Origin, "sched": c.Sched}
 	})
